@@ -39,7 +39,7 @@ namespace cnl {
         {
             static_assert(is_integral_unsigned<T>(), "T must be unsigned integer");
 
-            return static_cast<T>((x << (s % width)) | (x >> (width - (s % width))));
+            return static_cast<T>((x << (s % width)) | (x >> ((width - (s % width)) % width)));
         }
 
         template<typename T>
@@ -47,7 +47,7 @@ namespace cnl {
         {
             static_assert(is_integral_unsigned<T>(), "T must be unsigned integer");
 
-            return static_cast<T>((x >> (s % width)) | (x << (width - (s % width))));
+            return static_cast<T>((x >> (s % width)) | (x << ((width - (s % width)) % width)));
         }
 
         template<typename T>
